@@ -17,14 +17,17 @@ PROPS = {
         exhaustive={"quick": False, "thorough": False},
     ),
     "C18": dict(
-        family="strpool", theorems=T("C18", "strong_guarantee", "nothing_leaked", "usable_after", "setText_throws_iff", "appendChar_throws_iff"),
+        family="strpool", families=["strpool", "stream"], slices_by_family={"stream": {"quick": 8, "thorough": 16}},
+        theorems=T("C18", "strong_guarantee", "nothing_leaked", "usable_after", "setText_throws_iff", "appendChar_throws_iff", "stream_insertion_strong_guarantee"),
         partial="exceptions raised while a value is being computed by operations modelled elsewhere (hex/base64 decode, format, Latin-1 conversion) enter this model "
                 "as 'throws before any result object exists'; that this is where they are raised is checked by the correspondence (snapshots before/after), not proved",
         rule="every throwing entry point (set / constructors / operator= from malformed UTF-8, UTF-16, UTF-32 under check_validity; set(char_buffer&&) and set(const "
              "char_buffer&) with a pool buffer as lvalue and rvalue argument; += of malformed text and of code points above U+10FFFF (surrogate values must not throw); "
              "operator+ with them; to_latin_1 without substitution; hex/base64 decode of bad text; ST::format with bad format strings and missing arguments) x target size "
              "class x argument size class (0, 1, limit-1, limit, limit+1, 3*limit), each followed by further use of target and argument; seeded random histories of 30 "
-             "operations with throwing operations injected; after every step the full pool snapshot is compared with the pre-operation snapshot. non-trivial = more than 3 operations",
+             "operations with throwing operations injected; after every step the full pool snapshot is compared with the pre-operation snapshot. Stream insertion (family "
+             "stream): operator<< of wide text (every pointer / std::basic_string / string_view overload) with one malformed unit at positions 0..300 (around 16, 64, 128, 256 "
+             "units) of texts up to 370 units into streams of every storage state, followed by further use. non-trivial = more than 3 operations",
         exhaustive={"quick": False, "thorough": False},
     ),
 }
